@@ -52,7 +52,12 @@ pub fn scenario_names() -> Vec<&'static str> {
         // the same exchanges under frame limits at and beyond the place where a length prefix may have three bytes
         // a chatty client (40 plugin messages before Client Information) and a refusal after slow routing
         "many-plugin-messages", "slow-discovery-no-target",
-        "status@2097151", "eager-login-transfer@2097151", "eager-cookie-transfer@16384", "pipelined-login-transfer@2147483647"]
+        "status@2097151", "eager-login-transfer@2097151", "eager-cookie-transfer@16384", "pipelined-login-transfer@2147483647",
+        // byte streams a well-behaved client would not produce but may: length prefixes written with more bytes than
+        // needed (`81 00` for 1), and an empty frame (a lone `00`) between two frames. Whatever the router makes of
+        // them - serve, refuse - it makes of them under every segmentation.
+        "odd-status-padded-2", "odd-status-padded-3", "odd-status-padded-5", "odd-login-padded-2", "odd-login-padded-3-lockstep",
+        "odd-status-empty-frame", "odd-status-empty-frame-before-ping", "odd-login-empty-frame-in-configuration"]
 }
 
 fn scenario(name: &str) -> Case {
@@ -74,6 +79,35 @@ fn scenario(name: &str) -> Case {
                 st(When::Idle, Act::StatusRequest),
                 st(When::Idle, Act::Ping(0x0102030405060708)),
             ];
+        }
+        n if n.starts_with("odd-status-padded-") => {
+            case.adapters.status = StatusPlan::Full;
+            case.transport.sb_len_pad = n.rsplit('-').next().and_then(|k| k.parse().ok()).unwrap_or(2);
+            case.script = vec![
+                st(When::Idle, Act::Handshake { proto: 769, host: "mc.example.org".into(), port: 25565, next: 1 }),
+                st(When::With, Act::StatusRequest),
+                st(When::With, Act::Ping(0x1112131415161718)),
+            ];
+        }
+        "odd-login-padded-2" => {
+            case.transport.sb_len_pad = 2;
+            case.script = Login { eager: true, ..Default::default() }.steps();
+        }
+        "odd-login-padded-3-lockstep" => {
+            case.transport.sb_len_pad = 3;
+            case.script = Login::default().steps();
+        }
+        "odd-status-empty-frame" | "odd-status-empty-frame-before-ping" => {
+            case.adapters.status = StatusPlan::Full;
+            let mut steps = vec![st(When::Idle, Act::Handshake { proto: 769, host: "mc.example.org".into(), port: 25565, next: 1 }), st(When::With, Act::StatusRequest), st(When::With, Act::Ping(0x2122232425262728))];
+            steps.insert(if name.ends_with("before-ping") { 2 } else { 1 }, st(When::With, Act::Raw(vec![0])));
+            case.script = steps;
+        }
+        "odd-login-empty-frame-in-configuration" => {
+            let mut steps = Login { eager: true, ..Default::default() }.steps();
+            let at = steps.len() - 1;
+            steps.insert(at, st(When::With, Act::Raw(vec![0])));
+            case.script = steps;
         }
         "login-transfer" => case.script = Login::default().steps(),
         // handshake + login start in one burst, login acknowledged + client information in one burst
@@ -380,7 +414,8 @@ fn run_spec(base: &Base, spec: &Spec) -> (Obs, Option<(String, String)>, bool) {
         diff = Some(format!("outcome differs: baseline {br} / here {or} ({:?})", obs.result));
     } else if silent && keep_alive_view(&obs) != keep_alive_view(&base.obs) {
         diff = Some(format!("a client that never echoes: baseline (Keep Alives sent, Disconnect at) = {:?}, here {:?}; timed packets here {:?}", keep_alive_view(&base.obs), keep_alive_view(&obs), obs.packets.iter().map(|(t, p)| (*t, p.kind())).collect::<Vec<_>>()));
-    } else if !matches!(obs.result, RunResult::Horizon) {
+    } else if !matches!(obs.result, RunResult::Horizon) && !(spec.scenario.starts_with("odd-") && base.obs.result.is_err()) {
+        // (a stream the router refuses in the undisturbed run as well is not consumed to its end)
         // every byte of the client's stream that arrived before the connection ended must have been
         // consumed (what arrives at or after the end may be left over)
         let must: usize = obs.sb_frames.iter().filter(|f| f.3 < obs.end_ms).map(|f| f.1).sum();
@@ -559,7 +594,8 @@ pub fn core(rep: &Report, thorough: bool) {
     for name in scenario_names() {
         let base = baseline(name, &[]);
         // the baseline must be a complete, undisturbed run
-        if base.obs.garbled.is_some() || base.obs.consumed != base.obs.emitted || matches!(base.obs.result, RunResult::Panic(_)) {
+        let refused_oddity = name.starts_with("odd-") && base.obs.result.is_err() && base.obs.garbled.is_none() && !matches!(base.obs.result, RunResult::Panic(_));
+        if !refused_oddity && (base.obs.garbled.is_some() || base.obs.consumed != base.obs.emitted || matches!(base.obs.result, RunResult::Panic(_))) {
             if name.starts_with("eager") || name.starts_with("pipelined") {
                 // already reported by the family comparison above; its deviations cannot be judged against it
                 continue;
